@@ -29,6 +29,10 @@ package util
 // nothing is allocated on the strength of the 4-byte length prefix alone beyond a fixed bound:
 // with four bytes a peer must not be able to make the receiver reserve gigabytes
 //@   at call make: allocation_not_sized_by_unread_length: arg0 <= 16777216
+// exactly the frame is taken from the stream: header and payload are read from the stream itself,
+// nothing is read ahead into a buffer that the next call would not see
+//@   at call io.ReadFull: from_the_stream_itself: arg0 == c.Reader
+//@   at call io.CopyN: from_the_stream_itself: arg1 == c.Reader
 //@   ensures error_only_from_io_or_decode: result != nil ==> (cnt(ReadFullRes) > old(cnt(ReadFullRes)) && arg(ReadFullRes, 1) != nil) || (cnt(UnmarshalRes) > old(cnt(UnmarshalRes)) && arg(UnmarshalRes, 0) != nil)
 //@   ensures header_first: cnt(ReadFullRes) >= old(cnt(ReadFullRes)) + 1
 //@   ensures empty_frame_untouched: cnt(UnmarshalRes) == old(cnt(UnmarshalRes)) ==> asptr(m, types.Packet).Type == old(asptr(m, types.Packet).Type) && asptr(m, types.Packet).ID == old(asptr(m, types.Packet).ID) && asptr(m, types.Packet).Stat == old(asptr(m, types.Packet).Stat) && len(asptr(m, types.Packet).Data) == old(len(asptr(m, types.Packet).Data))
